@@ -45,7 +45,7 @@ ASSUMPTIONS = ['the application validators are the authority: the model '
 OUT_OF_REACH = ['GSS-API methods', 'hostbased auth from the hostile client '
                 '(covered by the repository tests only)', 'X.509']
 REQUIRED = ['histories', 'success_checked', 'refusal_checked',
-            'clean_valid_admitted', 'preauth_probes', 'restriction_probes',
+            'clean_valid_admitted', 'preauth_probes', 'restriction_probes', 'cert_restriction_probes',
             'gated_histories', 'signature_defects', 'positive_logins',
             'user_switches', 'exec_reordered', 'preauth_app_checked',
             'kbdpw_dialogues',
@@ -226,7 +226,19 @@ def gen_cases(tier, seed):
                                      'principals="!admin,*"']),
             'source': rng.choice([None, None, None, 'ok', 'other']),
             'login': rng.choice(['user', 'user', 'user', 'other']),
+            # what the certificate permits once it is accepted
+            'permits': ['all', 'none', 'no_pty', 'no_pf', 'force',
+                        'none_force'][i % 6],
             'cseed': rng.randrange(1 << 30)})
+
+    # ... and every restriction set on a certificate that is accepted
+    for pm in ('all', 'none', 'no_pty', 'no_pf', 'force', 'none_force'):
+        for src in (None, 'ok'):
+            for pr in ([], ['user']):
+                cases.append({'kind': 'certgrid', 'principals': pr,
+                              'ctype': 'user', 'validity': 'ok',
+                              'ca': 'trusted', 'entry_opt': '', 'source': src,
+                              'login': 'user', 'permits': pm, 'cseed': 11})
 
     # the user-switch shape again, the second request arriving while the
     # first one's validator is still deciding
@@ -255,6 +267,26 @@ def gen_cases(tier, seed):
     for i in range(npos):
         cases.append({'kind': 'positive', 'cred': kinds[i % len(kinds)],
                       'cseed': rng.randrange(1 << 30)})
+    # half of the histories run against an application that installs keys
+    # only for users that have some (the documented begin_auth pattern: a
+    # missing per-user file is skipped), so that nothing but the library
+    # clears the previous user's keys on a user-name switch
+    for idx, c in enumerate(cases):
+        if c['kind'] == 'history' and c['cseed'] not in (5, 6, 1062354836):
+            c['sparse_begin'] = idx % 2 == 1
+    for steps in ([['none', 'alice'], ['pk_signed', 'mallory', 'A', 'right']],
+                  [['pk_query', 'alice', 'A'],
+                   ['pk_signed', 'carol', 'A', 'right']],
+                  [['password', 'bob', 'wrong'],
+                   ['pk_signed', 'mallory', 'B', 'right'],
+                   ['pk_signed', 'carol', 'B', 'right']],
+                  [['pk_signed', 'alice', 'R', 'garbage'],
+                   ['pk_signed', 'guest2', 'R', 'right']]):
+        for pl in (False, True):
+            cases.append({'kind': 'history', 'steps': steps, 'pipelined': pl,
+                          'gated': False, 'release': 'fifo',
+                          'gate_begin': False, 'exec_order': 'eager',
+                          'sparse_begin': True, 'chunk': 'all', 'cseed': 12})
     return cases
 
 
@@ -279,7 +311,8 @@ class _TCPSink(asyncssh.SSHTCPSession):
 
 
 class AuthServer(asyncssh.SSHServer):
-    def __init__(self, rec, pending, gated, gate_begin):
+    def __init__(self, rec, pending, gated, gate_begin, sparse=False):
+        self.sparse = sparse
         self.rec = rec
         self.pending = pending
         self.gated = gated
@@ -309,7 +342,7 @@ class AuthServer(asyncssh.SSHServer):
         if ak:
             self.conn.set_authorized_keys(
                 asyncssh.import_authorized_keys(ak))
-        else:
+        elif not self.sparse:
             self.conn.set_authorized_keys(asyncssh.import_authorized_keys(''))
         result = username != 'guest'
         self.rec.append(('begin_auth', username, result))
@@ -461,7 +494,8 @@ def _run_history(case, mon, viol):
 
         def mk():
             return AuthServer(rec, pending, case['gated'],
-                              case['gate_begin'])
+                              case['gate_begin'],
+                              case.get('sparse_begin', False))
 
         async with scen.Env(loop, server_factory=mk, chunking=case['chunk'],
                             seed=case['cseed'],
@@ -951,10 +985,22 @@ def _run_certgrid(case, mon, viol):
         signer = other_ca if case['ca'] == 'untrusted' else ca
         kw = dict(principals=case['principals'], valid_after=va,
                   valid_before=vb)
+        permits = case.get('permits', 'all')
         if case['ctype'] == 'user':
             if case['source']:
                 kw['source_address'] = ['127.0.0.0/8'] \
                     if case['source'] == 'ok' else ['10.1.0.0/16']
+            if permits in ('none', 'none_force'):
+                kw.update(permit_x11_forwarding=False,
+                          permit_agent_forwarding=False,
+                          permit_port_forwarding=False, permit_pty=False,
+                          permit_user_rc=False)
+            elif permits == 'no_pty':
+                kw['permit_pty'] = False
+            elif permits == 'no_pf':
+                kw['permit_port_forwarding'] = False
+            if permits in ('force', 'none_force'):
+                kw['force_command'] = 'forced-by-cert'
             cert = signer.generate_user_certificate(ukey, 'kid', **kw)
         else:
             cert = signer.generate_host_certificate(ukey, 'kid', **kw)
@@ -977,13 +1023,55 @@ def _run_certgrid(case, mon, viol):
             def auth_completed(self):
                 granted.append(self.conn.get_extra_info('username'))
 
+            def connection_requested(self, dest_host, dest_port, orig_host,
+                                     orig_port):
+                return _TCPSink()
+
+        async def probe(conn):
+            # the restrictions of the accepted certificate, seen from a
+            # client: forced command, pty, direct-tcpip
+            want_cmd = 'forced-by-cert' if permits in ('force', 'none_force') \
+                else 'hello'
+            want_pty = permits not in ('none', 'none_force', 'no_pty')
+            want_pf = permits not in ('none', 'none_force', 'no_pf')
+            mon['cert_restriction_probes'] += 1
+            short = {k: v for k, v in case.items() if k != 'cseed'}
+            r = await conn.run('hello', check=False)
+            if f'CMD={want_cmd!r};' not in str(r.stdout):
+                viol.append({'mechanism': 'forced_command_mismatch',
+                             'detail': f'{r.stdout!r} vs {want_cmd}; {short}'})
+            try:
+                r = await conn.run('hello', term_type='xterm', check=False)
+                got_pty = "TERM='xterm'" in str(r.stdout)
+            except asyncssh.ChannelOpenError:
+                got_pty = False
+            if got_pty != want_pty:
+                viol.append({'mechanism': 'restriction_not_enforced',
+                             'detail': f'pty granted={got_pty}, certificate '
+                                       f'permits={want_pty}; {short}'})
+            try:
+                rd, wr = await conn.open_connection('dest.example', 80)
+                wr.close()
+                got_pf = True
+            except asyncssh.ChannelOpenError:
+                got_pf = False
+            if got_pf != want_pf:
+                viol.append({'mechanism': 'restriction_not_enforced',
+                             'detail': f'direct-tcpip granted={got_pf}, '
+                                       f'certificate permits={want_pf}; '
+                                       f'{short}'})
+
         async with scen.Env(loop, server_factory=Srv, chunking='all',
-                            seed=case['cseed']) as env:
+                            seed=case['cseed'],
+                            server_opts=dict(process_factory=_cmd_probe)) \
+                as env:
             ok = None
             try:
                 conn = await env.connect(username=case['login'],
                                          client_keys=[(ukey, cert)])
                 ok = True
+                if 'permits' in case:
+                    await probe(conn)
                 conn.close()
                 await conn.wait_closed()
             except asyncssh.PermissionDenied:
